@@ -82,13 +82,15 @@ def actsFail : List Act :=
    .loopClose, .callerRetFin]
 
 /-- **Non-vacuity of `C08_par_errors` / `C08_par_end_iff` / `C10_end_never_after_failure`,** and the
-    counterexample to "the entries are in the order of the `ended` events": the premises hold; every
+    counterexample to "the entries are in the order of the `ended` events": the premises hold
+    (`noCancelB` is the executable form of `∀ x, Ev.cancelled x ∉ s.log`, `noCancel_of_b`, which gives
+    the premise `∀ j, Ev.cancelled (c.ctxOfJob j) ∉ s.log`); every
     task/element/entry function was called once although two of them failed; the End function was
     never started (its job was skipped as invalid); `Wait` returns exactly the two functions' own
     errors — in the order `[job 2, job 0]` in which the loop saw the results, whereas the bodies
     ended in the order `[job 0, job 2]`. -/
 example : ∃ s, run (cfg true) (init (cfg true)) actsFail = some s ∧
-    s.loop.phase ≠ .select ∧ s.caller.sent = (parJobs p).length ∧ Ev.cancelled ∉ s.log ∧
+    s.loop.phase ≠ .select ∧ s.caller.sent = (parJobs p).length ∧ noCancelB s.log = true ∧
     Consistent p scFail s.log ∧
     callsOf p scFail s.log = ["scall 0 0 70235", "call 0", "scall 0 1 70236", "mcall 1 84331 94331"] ∧
     Ev.started 3 ∉ s.log ∧ Ev.skipped 3 .invalid ∈ s.log ∧
